@@ -333,6 +333,7 @@ def conversion(ck: Check, info):
     wire2model = {w: m for m, w in info["enums"]["enumPairs"]}
     families = (M.EntityInfo, M.EntityState, M.DeviceInfo, M.UserService, M.UserServiceArg)
     n_per = 40 if thorough else 8
+    order_items = []
     from google.protobuf.descriptor import FieldDescriptor as FD
     for cname, mname in info["fields"]["classPairs"]:
         cls, pb = mods[cname], getattr(api_pb2, mname)
@@ -396,6 +397,7 @@ def conversion(ck: Check, info):
                 ck.violation(f"from-pb-raises:{cname}", f"{cname}.from_pb raised {type(err).__name__}: {err} on a valid {mname}",
                              {"class": cname, "message": mname, "payload": msg.SerializeToString().hex()})
                 continue
+            order_items.append((cname, mname, msg.SerializeToString().hex(), repr(obj)))
             ops.append(f"conv.frompb {cname} {tok_msg(msg)}")
             checks.append(lambda out, obj=obj: cmp_tree(parse_m(out.split(" "))[0], obj, type(obj).__name__))
             # spec on the implementation: identity fields preserved, enums -> member or None
@@ -457,6 +459,31 @@ def conversion(ck: Check, info):
                 if not ok:
                     ck.violation(f"roundtrip:{cname}", f"{cname}.from_dict(to_dict(x)) != x", {"class": cname, "payload": msg.SerializeToString().hex(),
                                                                                               "back": repr(back)[:300]})
+    # 3. the conversion is a function of the message: the same payloads converted in a fresh interpreter in which the model
+    # classes were first used in another order (bare base classes before any concrete class / concrete classes last to
+    # first) must give the results judged above
+    import inspect, json, os, subprocess, sys
+    bases = [n for n, c in vars(M).items() if inspect.isclass(c) and dataclasses.is_dataclass(c) and c.__subclasses__()]
+    stats["order_probes"] = 0
+    for label, bare, items in (("bare base classes first", bases, order_items),
+                               ("bare base classes first, concrete classes in reverse", bases, order_items[::-1]),
+                               ("concrete classes in reverse", [], order_items[::-1])):
+        try:
+            pr = subprocess.run([sys.executable, os.path.join(os.path.dirname(os.path.abspath(__file__)), "c14_order.py")],
+                                input=json.dumps({"bare": bare, "items": [list(i[:3]) for i in items]}), capture_output=True,
+                                text=True, timeout=600, check=True)
+            got = json.loads(pr.stdout)
+        except Exception as e:  # noqa: BLE001
+            raise RuntimeError(f"c14_order helper failed: {e}; {getattr(e, 'stderr', '')}") from e
+        seen = set()
+        for (cname, mname, hx, want), g in zip(items, got):
+            stats["order_probes"] += 1
+            if g != want and cname not in seen:
+                seen.add(cname)
+                ck.violation(f"order-dependent:{cname}", f"{cname}.from_pb gives another result for the same {mname} when the model classes "
+                             f"were first used in another order ({label}): {g[:200]} instead of {want[:200]} - the conversion is not a "
+                             "function of the message", {"class": cname, "message": mname, "payload": hx, "order": label,
+                                                         "bare_first": bare, "result": g[:400], "expected": want[:400]})
     return ops, checks, stats
 
 
